@@ -37,7 +37,7 @@ def cells(tier):
         nmsg = 4 if (kind == "mem" or tier == "thorough") else 3
         for L in (1, 2, 3):
             for nq in (1, 2):
-                for fail in (None, 1):
+                for fail in (None, 1, "cancelled"):
                     for arrival in ("before", "burst"):
                         if tier == "quick" and kind != "mem" and (nq == 2 and arrival == "burst"):
                             continue
@@ -72,6 +72,10 @@ def execute(cell, late_at=None):
                 actor_log(w, mid, "end")
             if cell["fail"] == i and first:
                 raise ValueError("first attempt fails")
+            if cell["fail"] == "cancelled" and i == 1:
+                # the invocation ends in the cancelled state although nobody stops the worker
+                # (e.g. the actor awaited something that had been cancelled)
+                raise asyncio.CancelledError()
 
         for q in queues:
             worker.actor(job, name=f"job_{q}", queue=q, converter=BasicConverter, retry_policy=fixed_policy(0.0))
@@ -129,7 +133,8 @@ def execute(cell, late_at=None):
                     viol.append(("slot-idle", f"a slot became free at {t / NS:.4f}s with {n - len(started)} messages waiting, "
                                               f"the next actor started {'never' if nxt is None else '%.3fs later' % ((nxt - t) / NS)}"))
                     break
-    want_runs = {f"m{i}": (2 if cell["fail"] == i else 1) for i in range(n)}
+    # an invocation that ends cancelled is a failed execution: retried once (retries=1), like job `fail`
+    want_runs = {f"m{i}": (2 if cell["fail"] == i or (cell["fail"] == "cancelled" and i == 1) else 1) for i in range(n)}
     if extra:
         enq = [r[0] for r in res.log if r[1] == "call" and r[2] == "enqueue" and r[3] == f"m{n}"]
         if enq and res.stop_ns is not None and enq[0] <= res.stop_ns - round((ALLOW[kind] + 0.03) * NS):
